@@ -314,7 +314,7 @@ impl<'a> Enc<'a> {
                 }
                 _ => Self::shape(ty, v),
             },
-            Ty::Wrap(t) => self.encode(t, v),
+            Ty::Wrap(t) | Ty::Lenient(t) => self.encode(t, v),
             Ty::Uuid => match v {
                 Val::Bytes(b) if b.len() == 16 => {
                     self.out.extend_from_slice(b);
